@@ -690,6 +690,12 @@ class World:
             ctx.monitor("len_iter_contains")
             ids_iter = [j.id for j in fp]
             members = [jid for jid in m if fp.open_job(id=jid) in fp]
+            fp.open_job({"probe": 1})  # makes the session read the persistent cache, if any
+            ids_iter2 = [j.id for j in fp]
+            if sorted(ids_iter2) != sorted(ids_iter):
+                self.viol("listing-changes-after-cache-read", "iteration differs before/after the session read its cache",
+                          {"before": sorted(ids_iter), "after": sorted(ids_iter2), "model": sorted(m)})
+                raise Abort()
             if len(fp) != len(ids_iter) or len(ids_iter) != len(set(ids_iter)) or set(members) != set(m) or len(fp) != len(m):
                 key = "len-iter-membership-disagree"
                 if len(fp) > len(m) and self.junk[p]:
